@@ -83,6 +83,15 @@ func (p *Program) Hash() string {
 		parts = append(parts, k, m[k])
 	}
 	parts = append(parts, p.Analysed...)
+	parts = append(parts, p.SrcRoot)
+	nk := make([]string, 0, len(p.Notes))
+	for k := range p.Notes {
+		nk = append(nk, k)
+	}
+	sort.Strings(nk)
+	for _, k := range nk {
+		parts = append(parts, k, p.Notes[k])
+	}
 	return evid.Hash(parts...)
 }
 
